@@ -869,7 +869,11 @@ pub fn combo_net(rng: &mut Rng, r: usize, wkind: u8) -> (NetSpec, Sh, Sh) {
 pub fn gen_scripts(rng: &mut Rng, thorough: bool, focus: usize, tag: &str) -> Vec<Tagged> {
     let mut out: Vec<Tagged> = vec![];
     let reps = if thorough { 60 } else { 12 };
-    for r in 0..reps {
+    // the last third of the scripts RECONFIGURES the network between calls (set_optimizer - its state is sized
+    // and zero-filled anew -, set_objective, set_accumulation) instead of drawing the calls at random
+    for r0 in 0..reps + reps / 2 {
+        let reconfigure = r0 >= reps;
+        let r = if reconfigure { r0 - reps } else { r0 };
         let mut o = GenOpts::default();
         o.wkind = 2;
         o.acts = vec![Act::Linear, Act::Tanh, Act::Sigmoid, Act::Leaky];
@@ -915,6 +919,31 @@ pub fn gen_scripts(rng: &mut Rng, thorough: bool, focus: usize, tag: &str) -> Ve
             }
             d
         };
+        if reconfigure {
+            let alt = if focus == 4 { Obj::MSE } else { [Obj::MAE, Obj::AE, Obj::RMSE][r % 3] };
+            let clamp = if r % 2 == 0 { Some((-0.5f32, 0.75f32)) } else { None };
+            let back = spec.obj;
+            let mut ops: Vec<NetCmd> = vec![
+                NetCmd::Learn { data: mk_data(rng, 3), val: None, batch: 2, epochs: 2 },
+                NetCmd::SetOptimizer(rand_opt(rng, (r + 1) % 5)),
+                NetCmd::Learn { data: mk_data(rng, 2), val: Some((mk_data(rng, 2), 5)), batch: 1, epochs: 2 },
+                NetCmd::SetObjective(alt, clamp),
+                NetCmd::Validate { data: mk_data(rng, 2), tol: 0.25, pre_training: false },
+                NetCmd::Learn { data: mk_data(rng, 2), val: None, batch: 2, epochs: 1 },
+            ];
+            if focus == 3 {
+                ops.push(NetCmd::SetAccumulation([Acc::Mean, Acc::Sub, Acc::Mul][r % 3], Acc::Mean));
+                ops.push(NetCmd::Predict(rand_input(rng, input, 2)));
+                ops.push(NetCmd::SetAccumulation(Acc::Add, Acc::Mean));
+            }
+            ops.push(NetCmd::Predict(rand_input(rng, input, 2)));
+            ops.push(NetCmd::SetObjective(back, None));
+            // the SAME optimizer kind attached again: fresh state
+            ops.push(NetCmd::SetOptimizer(rand_opt(rng, (r + 1) % 5)));
+            ops.push(NetCmd::Learn { data: mk_data(rng, 2), val: None, batch: 1, epochs: 2 });
+            out.push((format!("script-reconfigure-{}-f{}", tag, focus), Case::Net(spec, NetCmd::Script(ops))));
+            continue;
+        }
         let nops = rng.range(3, 6);
         let mut ops: Vec<NetCmd> = vec![];
         for k in 0..nops {
